@@ -203,6 +203,7 @@ def check_generator(case, ctx):
         e2 = (e2 * 3)[: len(e1)]
     bits = len(e1) * 8
     for route in ("mnemonic_from_entropy_bits", "BaseWallet.from_entropy_bits", "BaseWallet.new_wallet"):
+        earlier, consulted_before = [], False
         for e in (e1, e2, e1):
             with scripted_random([int.from_bytes(e, "big")]) as stub:
                 if route == "mnemonic_from_entropy_bits":
@@ -213,6 +214,11 @@ def check_generator(case, ctx):
                     st_, s = call(lambda: BaseWallet.new_wallet(len(e) * 3 // 4).mnemonic)
             if st_ == "exc":
                 raise Violation("C04/generator/raised", "%s(%d bits) raised %r" % (route, bits, s))
+            if not stub.asked and consulted_before and s in earlier:
+                raise Violation("C04/generator/stale-sentence", "%s(%d bits) did not draw new entropy and returned the "
+                                "sentence of an earlier call again: %r" % (route, bits, str(s)[:60]))
+            consulted_before = consulted_before or bool(stub.asked)
+            earlier.append(s)
             if not stub.asked:
                 ctx.count("scripted-source-not-consulted")
                 dec = R.decode(s) if isinstance(s, str) else None
